@@ -1,9 +1,20 @@
 (** * Extract.v — the single extraction file.  [ExtrOcamlBasic] only; [Z], [positive],
     [N] and [nat] stay inductive.  No [Extract Constant]. *)
 From Coq Require Import ZArith List Extraction ExtrOcamlBasic.
-From HPBF Require Import Cell.
+From HPBF Require Import Cell IO BF Expr Inplace IR BC Parse Machines.
 Extraction Language OCaml.
 Extraction "extract/model.ml"
   Cell.wadd Cell.wmul Cell.wneg Cell.wand Cell.wshr Cell.wshl Cell.tz Cell.is_odd
   Cell.wpow Cell.winv Cell.wdiv Cell.wdiv_reaches_sub
-  Cell.from_u64 Cell.into_u64 Cell.into_i64 Cell.from_u8 Cell.into_u8 Cell.from_i16 Cell.try_into_i16.
+  Cell.from_u64 Cell.into_u64 Cell.into_i64 Cell.from_u8 Cell.into_u8 Cell.from_i16 Cell.try_into_i16
+  IO.do_input IO.do_output IO.io0 IO.outcome_state IO.tget IO.tset IO.tempty
+  BF.bf_run BF.ast_of_source BF.balanced BF.bf_exec BF.bf0 BF.events
+  Expr.e_val Expr.e_var Expr.eval Expr.e_add Expr.e_mul Expr.e_neg Expr.e_half Expr.e_normalize
+  Expr.e_is_zero Expr.e_add_count Expr.e_op_count Expr.e_constant Expr.e_inc_of Expr.e_prod_inc_of
+  Expr.e_const_inc_of Expr.e_prod_of Expr.e_constant_part Expr.e_identity Expr.e_variables
+  Expr.e_split_along Expr.e_symb_evaluate
+  Inplace.ip_run
+  IR.ir_run IR.finished_flag
+  BC.bc_run
+  Parse.parse
+  Machines.bf_machine_run Machines.ir_machine_run.
